@@ -198,7 +198,92 @@ fn project_with_entrypoint(r: &mut Rng, o: &GenOpts) -> Project {
     p
 }
 
+
+// ---- the same type refinement reached twice at one place, with an overlapping linked field --------
+
+/// Adds `interface ZzActor`, `type ZzUser implements ZzActor { name, age, bestFriend(first: Int): ZzUser }`,
+/// `Query.zz_actor: ZzActor`, two client fields on `ZzActor` that refine to `ZzUser` and select
+/// `bestFriend` with DIFFERENT sub-selections, and a host `field Query.ZzHost { zz_actor { … } }` with its
+/// entrypoint.  `arrangement`: what stands inside `zz_actor { … }`:
+///   0 field-then-direct  `ZzA, asZzUser { bestFriend { B } }`      1 direct-then-field  `asZzUser { bestFriend { B } }, ZzA`
+///   2 fieldA-then-fieldB `ZzA, ZzB`                                 3 fieldB-then-fieldA `ZzB, ZzA`
+/// All four must give the same operation (`bestFriend { age, name … }` inside `... on ZzUser`).
+/// `deep`, `with_arg`, `extra` vary the shape (nested `bestFriend`, a literal argument, more scalars).
+fn inject_overlap(p: &Project, arrangement: usize, deep: bool, with_arg: bool, extra: bool) -> Project {
+    let named = TypeRef::named;
+    let mut q = p.clone();
+    q.schema.types.push(TypeDef {
+        name: "ZzActor".into(),
+        description: None,
+        kind: TypeKind::Interface { implements: vec![], fields: vec![fd("name", vec![], named("String"))] },
+    });
+    q.schema.types.push(TypeDef {
+        name: "ZzUser".into(),
+        description: None,
+        kind: TypeKind::Object {
+            implements: vec!["ZzActor".into()],
+            fields: vec![
+                fd("name", vec![], named("String")),
+                fd("age", vec![], named("Int")),
+                fd("bestFriend", vec![ad("first", named("Int"))], named("ZzUser")),
+            ],
+        },
+    });
+    for t in q.schema.types.iter_mut() {
+        if t.name == "Query" {
+            if let TypeKind::Object { fields, .. } = &mut t.kind {
+                fields.push(fd("zz_actor", vec![], named("ZzActor")));
+            }
+        }
+    }
+    let args = || if with_arg { vec![("first", Value::Int(1))] } else { vec![] };
+    let friend = |leaf: &str| {
+        let mut kids = vec![sel(None, leaf, vec![], None)];
+        if deep {
+            kids.push(sel(None, "bestFriend", args(), Some(vec![sel(None, leaf, vec![], None)])));
+        }
+        sel(None, "bestFriend", args(), Some(kids))
+    };
+    let refine = |leaf: &str| {
+        let mut kids = vec![friend(leaf)];
+        if extra {
+            kids.insert(0, sel(None, leaf, vec![], None));
+        }
+        sel(None, "asZzUser", vec![], Some(kids))
+    };
+    let file = format!("{}/ZzOverlap.tsx", p.options.project_root.trim_start_matches("./").trim_end_matches('/'));
+    let field = |parent: &str, name: &str, selections: Vec<Selection>| {
+        (
+            file.clone(),
+            Decl::ClientField(ClientField { parent: parent.into(), name: name.into(), vars: vec![], directives: vec![], description: None, selections }),
+        )
+    };
+    let call = |name: &str| sel(None, name, vec![], None);
+    let inside = match arrangement {
+        0 => vec![call("ZzA"), refine("age")],
+        1 => vec![refine("age"), call("ZzA")],
+        2 => vec![call("ZzA"), call("ZzB")],
+        _ => vec![call("ZzB"), call("ZzA")],
+    };
+    q.decls.push(field("ZzActor", "ZzA", vec![refine("name")]));
+    q.decls.push(field("ZzActor", "ZzB", vec![refine("age")]));
+    q.decls.push(field("Query", "ZzHost", vec![sel(None, "zz_actor", vec![], Some(inside))]));
+    q.decls.push((file.clone(), Decl::Entrypoint(Entrypoint { parent: "Query".into(), name: "ZzHost".into(), directives: vec![] })));
+    q
+}
+
+/// (T, arrangement of P, arrangement of T(P))
+const OVERLAP_PAIRS: &[(&str, usize, usize)] =
+    &[("overlap-perm", 0, 1), ("overlap-perm", 2, 3), ("overlap-extract", 1, 3), ("overlap-extract", 0, 2)];
+
 fn gen_arrange(r: &mut Rng, i: u64) -> Vec<String> {
+    if i % 8 == 7 {
+        let o = gen_opts();
+        let p = generate(r, &o);
+        let (t, a, b) = OVERLAP_PAIRS[((i / 8) % 4) as usize];
+        let (deep, with_arg, extra) = (r.chance(1, 2), r.chance(1, 2), r.chance(1, 2));
+        return vec![format!("arrange\t{t}\t{}\t{}", to_wire(&inject_overlap(&p, a, deep, with_arg, extra)), to_wire(&inject_overlap(&p, b, deep, with_arg, extra)))];
+    }
     let o = gen_opts();
     let p = project_with_entrypoint(r, &o);
     let (name, q) = match i % 3 {
@@ -650,6 +735,19 @@ fn witnesses() -> Vec<(&'static str, String)> {
             p
         };
         out.push(("C15 nested-variable-through-client-field", format!("arrange\tperm\t{}\t{}", to_wire(&build(true)), to_wire(&build(false)))));
+    }
+    // C15: one type refinement reached twice at one place, `bestFriend` selected with different sub-selections
+    {
+        let base = Project { schema: Schema { types: vec![obj_type("Query", vec![])] }, extensions: vec![], decls: vec![], options: Options::default(), extra_files: vec![] };
+        for (t, a, b) in OVERLAP_PAIRS {
+            let name: &'static str = match (a, b) {
+                (0, 1) => "C15 overlap field-then-direct vs direct-then-field",
+                (2, 3) => "C15 overlap fieldA-then-fieldB vs fieldB-then-fieldA",
+                (1, 3) => "C15 overlap direct-then-field vs fieldB-then-fieldA",
+                _ => "C15 overlap field-then-direct vs fieldA-then-fieldB",
+            };
+            out.push((name, format!("arrange\t{t}\t{}\t{}", to_wire(&inject_overlap(&base, *a, false, false, false)), to_wire(&inject_overlap(&base, *b, false, false, false)))));
+        }
     }
     // C16: duplicate response names across selection KINDS, and required LIST arguments without default
     {
